@@ -115,7 +115,8 @@ func init() {
 			for b := 0; b < nbooks; b++ {
 				// several books look the alias up, concurrently
 				w.writeCSVBook("", bookSpec{Name: fmt.Sprintf("Fruit%d", b), Sheets: []sheetSpec{{Name: fmt.Sprintf("Fruit%dConf", b), Rows: [][]string{
-					{"ID", "Kind"}, {fmt.Sprintf("map<uint32, Fruit%d>", b), "enum<.FruitType>"}, {"id", "kind"}, {"1", "Apple"}, {"2", "Pear"}}}}})
+					{"ID", "Kind", "At", "Day"}, {fmt.Sprintf("map<uint32, Fruit%d>", b), "enum<.FruitType>", "datetime", "date"}, {"id", "kind", "at", "day"},
+					{"1", "Apple", "2024-03-02 10:00:00", "2024-03-02"}, {"2", "Pear", "2023-11-05 01:30:00", "2023-11-05"}, {"3", "Apple", "2024-06-01 00:00:00", "2024-06-01"}}}}})
 			}
 			for b := 0; b < nbooks; b++ {
 				refer := "ItemConf.ID"
@@ -134,11 +135,14 @@ func init() {
 					{"ID", "ItemID"}, {"map<uint32, " + name + ">", "uint32|{refer:\"" + refer + "\"}"}, {"id", "item"},
 					{"1", "1"}, {"2", "3"}, {"3", "2"}}}}})
 			}
-			ro := runOpts{}
+			// the workbooks' datetime cells are read in a named location by every per-workbook goroutine
+			ro := runOpts{LocationName: []string{"Asia/Shanghai", "America/New_York", ""}[variant%3]}
 			if err := w.genProto(ro); err != nil {
 				done <- "returned"
 				return
 			}
+			_ = w.genConf(ro)
+			ro.LocationName = []string{"Europe/London", "Asia/Kolkata", "Asia/Shanghai"}[variant%3]
 			_ = w.genConf(ro)
 			// a second call in the same process, on good books only (the caches are process-wide)
 			w2 := newWorkspace()
